@@ -241,7 +241,7 @@ impl<T: FloatT> DynView<T> for Tap<T> {
     }
     fn lst(&self) -> Option<T> {
         let r = self.inner.last();
-        log_ev(self.id, "l", enc(r));
+        log_ev(self.id, "l", json!([if r.is_some() { "s" } else { "n" }]));
         r
     }
     fn bclone(&self) -> Option<Box<dyn DynView<T>>> {
@@ -260,8 +260,30 @@ impl<T: FloatT> DynView<T> for Probe<T> {
         self.out = Some(v);
     }
     fn lst(&self) -> Option<T> {
-        log_ev(self.id, "l", enc(self.out));
+        log_ev(self.id, "l", json!([if self.out.is_some() { "s" } else { "n" }]));
         self.out
+    }
+    fn bclone(&self) -> Option<Box<dyn DynView<T>>> {
+        Some(Box::new(self.clone()))
+    }
+}
+
+/// C01's decomposition, executed literally: a stand-alone inner view is fed the raw values and, only
+/// when it has an output, that output is fed into a stand-alone outer view built over Echo.
+#[derive(Clone)]
+struct Decomp<T: FloatT> {
+    inner: Dyn<T>,
+    outer: Dyn<T>,
+}
+impl<T: FloatT> DynView<T> for Decomp<T> {
+    fn upd(&mut self, v: T) {
+        self.inner.update(v);
+        if let Some(o) = self.inner.last() {
+            self.outer.update(o);
+        }
+    }
+    fn lst(&self) -> Option<T> {
+        self.outer.last()
     }
     fn bclone(&self) -> Option<Box<dyn DynView<T>>> {
         Some(Box::new(self.clone()))
@@ -364,6 +386,7 @@ pub fn build<T: FloatT>(d: &Value) -> Result<Dyn<T>, String> {
         )),
         "Tap" => un!(Tap::<T> { id: d["id"].as_u64().ok_or("Tap id")?, inner: child::<T>(d, 0)? }),
         "Probe" => un!(Probe::<T> { id: d["id"].as_u64().ok_or("Probe id")?, out: None }),
+        "Decomp" => un!(Decomp::<T> { inner: build(&d["inner"])?, outer: build(&d["outer"])? }),
         other => return Err(format!("unknown kind {other}")),
     })
 }
